@@ -609,7 +609,7 @@ func check(m *mp.Model, spec *docSpec, caseSeed uint64, fonts text.FontConfigura
 
 	// ---- the call sequence, judged by the Lean monitor
 	tm := time.Now()
-	ans, err := m.Ask(sx.L(sx.A("proto"), sx.I(len(doc.Pages)), rec.Encode()))
+	ans, err := m.Ask(sx.L(sx.A("proto"), sx.I(len(doc.Pages)), rec.Encode(), rec.EncodeDoc()))
 	tMonitor += time.Since(tm)
 	if err != nil {
 		return nil, err
